@@ -344,6 +344,7 @@ def internal_harness(ctx, cfg):
                         iou0[(a, b)] = z3.Real(f"iou{p.ids[a]}_{p.ids[b]}")
                         g.eattr[(a, b)] = {"iou": SReal(iou0[(a, b)])}
         ctx.input("iou", {f"{a},{b}": v for (a, b), v in iou0.items()})
+        ctx.input("entry", cfg.get("entry"))
         ctx.input("node_order", cfg.get("node_order"))
         ctx.input("op", "roundtrip_internal")
         ctx.input("select", None)
@@ -355,7 +356,10 @@ def internal_harness(ctx, cfg):
         try:
             with warnings.catch_warnings():
                 warnings.simplefilter("ignore")
-                X.ifmt.save_tracks(p.tr, d)
+                if cfg.get("entry") == "methods":
+                    p.tr.save(d)  # deprecated method wrappers of the same format
+                else:
+                    X.ifmt.save_tracks(p.tr, d)
                 if cfg.get("node_order") == "reversed":
                     # the order of "nodes" / "links" in graph.json is the insertion order of the graph, which after an
                     # editing session is arbitrary: this variant stores them in descending id order
@@ -363,7 +367,10 @@ def internal_harness(ctx, cfg):
                         if isinstance(v, dict) and "nodes" in v:
                             v["nodes"].reverse()
                             v["links"].reverse()
-                tr2 = X.ifmt.load_tracks(d, seg_required=p.seg is not None, solution=True)
+                if cfg.get("entry") == "methods":
+                    tr2 = X.SolutionTracks.load(d, seg_required=p.seg is not None, solution=True)
+                else:
+                    tr2 = X.ifmt.load_tracks(d, seg_required=p.seg is not None, solution=True)
         except Unsupported:
             raise
         except Exception as e:
@@ -537,8 +544,14 @@ def _replay_internal(inp, ob, tmp):
     scale0 = copy.deepcopy(tr.scale)
     exc = tr2 = None
     try:
-        save_tracks(tr, tmp / "saved")
-        tr2 = load_tracks(tmp / "saved", seg_required=seg0 is not None, solution=True)
+        if inp.get("entry") == "methods":
+            from funtracks.data_model import SolutionTracks
+
+            tr.save(tmp / "saved")
+            tr2 = SolutionTracks.load(tmp / "saved", seg_required=seg0 is not None, solution=True)
+        else:
+            save_tracks(tr, tmp / "saved")
+            tr2 = load_tracks(tmp / "saved", seg_required=seg0 is not None, solution=True)
     except Exception as e:
         exc = e
     detail = f"original nodes={ {n: a0[n] for n in sorted(a0)} } edges={sorted(g0.edges)} scale={scale0} -> exc={exc!r}"
